@@ -1,5 +1,6 @@
 import BsVerif.Lemmas.PathIndex
 import BsVerif.Lemmas.Symbols
+import BsVerif.Lemmas.FnPath
 /-!
 # C17 — names select exactly the functions, files and symbols they denote
 
@@ -79,6 +80,115 @@ def sampleLog : Log Nat :=
 #guard splitStr ":::" "::" == ["", ":"]
 
 end BsVerif.PathIndex
+
+/-! ## function paths: the components of a demangled name do not depend on the mangling scheme
+
+Model: `BsVerif/Model/FnPath.lean` (`NamespaceHierarchy::split_path`, used by `from_mangled` for the names and by
+`BsUnit::search_functions` for the templates).  Demangling itself (rustc-demangle) is environment; a name is the text it
+prints: the legacy scheme prints `a::b::f` for every instance of a generic `f` and `krate::Type::m` for an inherent
+method, the v0 scheme prints `a::b::f::<T>` and `<krate::Type>::m`.  (Before the repair the text was cut at EVERY `::`,
+also inside `<…>`, and these theorems were false for every generic instance and inherent method built with v0.) -/
+namespace BsVerif.FnPath
+open BsVerif.PathIndex
+
+/-- **C17_fn_path_components.**  For every path `seg::seg::…` whose segments are plain names, each optionally followed
+by `::<generic arguments>` (any bracket-balanced text, `->` allowed), the components are exactly the segments' names:
+the arguments the v0 scheme prints do not change the path, so an instance `a::b::f::<T>` has the components the legacy
+scheme gives every instance, `[a, b, f]`.  (With no arguments anywhere this is the legacy case itself.) -/
+theorem C17_fn_path_components (s : Seg) (ss : List Seg) (hs : ∀ x ∈ s :: ss, x.WF) :
+    splitPathChars (render (s :: ss)) = (s :: ss).map Seg.name :=
+  fn_path_components s ss hs
+
+/-- **C17_fn_path_inherent_impl.**  A method of an inherent impl, printed `<krate::Type>::method…` by v0, has the
+components of `krate::Type::method…` (what legacy prints). -/
+theorem C17_fn_path_inherent_impl (t : List Char) (ts : List (List Char)) (ss : List Seg)
+    (ht : ∀ x ∈ t :: ts, Plain x) (hs : ∀ x ∈ ss, x.WF) :
+    splitPathChars ('<' :: (render ((t :: ts).map fun t => ⟨t, none⟩) ++ '>' :: renderTail ss))
+      = (t :: ts) ++ ss.map Seg.name :=
+  fn_path_inherent_impl t ts ss ht hs
+
+/-- an index entry of a function: (namespace parts, subroutine name, value) as `from_mangled` + the parser make it -/
+def entry {α} (p : List (List Char)) (v : α) : List String × String × α :=
+  (p.dropLast.map String.ofList, String.ofList (p.getLastD []), v)
+
+/-- **C17_fn_templates_mangling_independent** (the end-to-end clause, no `LegacyMangling ∨ NonGeneric` restriction).
+For EVERY list of functions, each printed with arbitrary generic arguments after any of its segments, and every
+template already split into components, the function index answers exactly the functions whose plain path
+`[a, b, f]` ends with the template's components — every monomorphization, under both schemes. -/
+theorem C17_fn_templates_mangling_independent {α} (fns : List (Seg × List Seg × α))
+    (h : ∀ f ∈ fns, ∀ x ∈ f.1 :: f.2.1, x.WF) (etail : List String) (ehead : String) :
+    (Log.build (fns.map fun f => entry (splitPathChars (render (f.1 :: f.2.1))) f.2.2)).getComps etail ehead
+      = Log.query (fns.map fun f => entry ((f.1 :: f.2.1).map Seg.name) f.2.2) etail ehead := by
+  rw [C17_index_refines_suffix]
+  congr 1
+  exact List.map_congr_left fun f hf => by rw [fn_path_components _ _ (h f hf)]
+
+/-- `split_path` never returns an empty list: `parts.pop().expect(..)` of `from_mangled` cannot fire. -/
+theorem C17_fn_path_nonempty (s : List Char) : splitPathChars s ≠ [] := by
+  unfold splitPathChars
+  have h : ∀ (l : List Char) (pd : Bool) (d k : Nat) (cur : List Char), splitTopAux sepColons l pd d k cur ≠ [] := by
+    intro l
+    induction l with
+    | nil => intros; simp [splitTopAux]
+    | cons c cs ih =>
+      intro pd d k cur
+      cases k with
+      | succ k => simp only [splitTopAux]; exact ih _ _ _ _
+      | zero =>
+        simp only [splitTopAux]
+        repeat' split
+        all_goals first | exact ih _ _ _ _ | simp
+  have hne : ∀ (l : List Char) (pd : Bool) (d k : Nat) (cur : List Char) (dl : List Char),
+      splitTopAux dl l pd d k cur ≠ [] := by
+    intro l
+    induction l with
+    | nil => intros; simp [splitTopAux]
+    | cons c cs ih =>
+      intro pd d k cur dl
+      cases k with
+      | succ k => simp only [splitTopAux]; exact ih _ _ _ _ _
+      | zero =>
+        simp only [splitTopAux]
+        repeat' split
+        all_goals first | exact ih _ _ _ _ _ | simp
+  cases hp : splitTop sepColons s with
+  | nil => exact absurd hp (h s false 0 0 [])
+  | cons p ps =>
+    simp only [normParts]
+    cases hb : stripBrackets p with
+    | none => simp
+    | some ty =>
+      simp only [Bool.true_and, Bool.not_true, Bool.false_and, Bool.false_eq_true, if_false]
+      split
+      · intro hc
+        exact hne ty false 0 0 [] sepColons (List.append_eq_nil_iff.mp hc).1
+      · simp
+
+/-! Sanity tests (evaluated, not proofs): the texts `nm -C` prints for the debuggees of the end-to-end leg, a trait
+impl (kept as ONE component, ` as ` only counts outside nested brackets), legacy `<impl T>` segments, fn pointers. -/
+#guard splitPath "c17_names_v0::alpha::beta::zq_ident::<alloc::vec::Vec<u8>>" == ["c17_names_v0", "alpha", "beta", "zq_ident"]
+#guard splitPath "c17_names::alpha::beta::zq_ident" == ["c17_names", "alpha", "beta", "zq_ident"]
+#guard splitPath "<c17_names_v0::Zq>::zq_method" == ["c17_names_v0", "Zq", "zq_method"]
+#guard splitPath "<c17_names_v0::Zq as c17_names_v0::ZqT>::zq_tm" == ["<c17_names_v0::Zq as c17_names_v0::ZqT>", "zq_tm"]
+#guard splitPath "<k::Foo<<X as Y>::Z>>::m" == ["k", "Foo<<X as Y>::Z>", "m"]
+#guard splitPath "core::slice::<impl [T]>::len" == ["core", "slice", "<impl [T]>", "len"]
+#guard splitPath "<fn(u8) -> a::B as k::T>::m::<fn() -> u8>::{closure#0}" == ["<fn(u8) -> a::B as k::T>", "m", "{closure#0}"]
+#guard splitPath "core::ptr::drop_in_place<alloc::string::String>" == ["core", "ptr", "drop_in_place<alloc::string::String>"]
+#guard splitPath "" == [""]
+#guard splitPath "::f" == ["", "f"]
+#guard fromDemangled "poll" == ([], "poll")
+/-- the hypotheses of `C17_fn_path_components` are satisfiable: `a::f::<u8>` -/
+example : ∀ x ∈ [(⟨['a'], none⟩ : Seg), ⟨['f'], some ['u', '8']⟩], x.WF := by
+  intro x hx
+  simp only [List.mem_cons, List.mem_nil_iff, or_false] at hx
+  rcases hx with rfl | rfl
+  · exact ⟨by intro c hc; simp at hc; subst hc; decide, by simp⟩
+  · refine ⟨by intro c hc; simp at hc; subst hc; decide, ?_⟩
+    intro a ha
+    cases ha
+    exact ⟨Bal.chr _ _ (by decide) (by decide) (by decide) (Bal.chr _ _ (by decide) (by decide) (by decide) Bal.nil), by decide⟩
+
+end BsVerif.FnPath
 
 /-! ## `symbol <regex>` across all loaded objects
 
